@@ -86,6 +86,10 @@ def facts_dir(profile="dev", repo=None):
     out = os.path.join(root, key)
     done = os.path.join(out, "DONE")
     if os.path.exists(done):
+        try:
+            os.utime(out, None)            # in use: keeps it among the recent ones for the eviction below
+        except OSError:
+            pass
         return out
     lock = open(os.path.join(CACHE, "facts.lock"), "w")
     fcntl.flock(lock, fcntl.LOCK_EX)
@@ -124,10 +128,13 @@ def facts_dir(profile="dev", repo=None):
                 raise SystemExit("checker error: fact file %s was not written (cargo skipped the wrapper?)" % c)
         with open(done, "w") as fh:
             fh.write("%.1f\n" % (time.time() - t0))
-        # keep the cache small: drop all but the 6 most recent fact dirs
+        # keep the cache small: drop fact dirs beyond the 24 most recently used ones, but never one used in the last half hour
+        # (parallel self-test runs each work in a fact dir of their own)
         ents = sorted((os.path.getmtime(os.path.join(root, e)), e) for e in os.listdir(root))
-        for _, e in ents[:-6]:
-            shutil.rmtree(os.path.join(root, e), ignore_errors=True)
+        now = time.time()
+        for mt, e in ents[:-24]:
+            if now - mt > 1800:
+                shutil.rmtree(os.path.join(root, e), ignore_errors=True)
         return out
     finally:
         fcntl.flock(lock, fcntl.LOCK_UN)
